@@ -1,8 +1,184 @@
-import Ufw.Model.RegTable
+/-
+C04 – table initialisation accepts exactly the well-formed tables.  Property theorems only.
+
+Proved: the ordering rule (`orderCheck` reports the first index at which "ascending" resp.
+"non-overlapping" fails, and nothing on an ascending non-overlapping sequence), the precedence of
+the rules, that a table whose initialisation failed is left uninitialised so that every typed,
+block, iteration and sanitise operation reports it as such, and that a successful initialisation
+leaves it initialised.  NOT proved (correspondence only, named in DESIGN.md): the post-state of a
+successful initialisation (defaults read back, remaining memory zero, first/last/count of areas).
+-/
+import Ufw.Lemmas.RegTable
+import Ufw.Props.C03
+import Ufw.Props.C01
+
 namespace Ufw.Props.C04
-open Ufw Ufw.Model.RegTable
-/-- an uninitialised table refuses typed access -/
-theorem uninitialised_refuses (cb : Nat → Value → Bool) (t : Table) (h : t.initialised = false) (idx : Nat) (v : Value) :
-    register_set cb t idx v = (⟨.uninitialised, idx⟩, t) ∧ (register_get t idx).1 = ⟨.uninitialised, idx⟩ := by
-  simp [register_set, register_setx, register_get, h]
+open Ufw Ufw.Model.RegTable Ufw.Lemmas.RegTable
+
+/-- items (address, size) are ascending and do not overlap -/
+def Ordered : List (Nat × Nat) → Prop
+  | [] => True
+  | [_] => True
+  | (a, s) :: (b, sb) :: rest => a + s ≤ b ∧ Ordered ((b, sb) :: rest)
+
+/-- the ordering rule: `none` exactly on ascending, non-overlapping sequences -/
+theorem orderCheck_go_none (i prev prevSize : Nat) (l : List (Nat × Nat)) :
+    orderCheck.go i prev prevSize l = none ↔ Ordered ((prev, prevSize) :: l) := by
+  induction l generalizing i prev prevSize with
+  | nil => simp [orderCheck.go, Ordered]
+  | cons x rest ih =>
+    obtain ⟨cur, sz⟩ := x
+    simp only [orderCheck.go, Ordered]
+    by_cases h1 : cur < prev
+    · simp only [h1, ↓reduceIte, reduceCtorEq, false_iff, not_and]
+      intro h; omega
+    · simp only [h1, ↓reduceIte]
+      by_cases h2 : cur < prev + prevSize
+      · simp only [h2, ↓reduceIte, reduceCtorEq, false_iff, not_and]
+        intro h; omega
+      · simp only [h2, ↓reduceIte, ih]
+        constructor
+        · intro h; exact ⟨by omega, h⟩
+        · intro h; exact h.2
+
+/-- ... and otherwise the index of the first offending item with the rule it breaks: `false` =
+    not ascending, `true` = overlapping its predecessor -/
+theorem orderCheck_go_some (i prev prevSize : Nat) (l : List (Nat × Nat)) (ov : Bool) (k : Nat)
+    (h : orderCheck.go i prev prevSize l = some (ov, k)) :
+    i ≤ k ∧ k < i + l.length ∧
+    ∃ p ps c cs, (((prev, prevSize) :: l)[k - i]? = some (p, ps)) ∧ l[k - i]? = some (c, cs) ∧
+      (if ov then p ≤ c ∧ c < p + ps else c < p) ∧
+      Ordered (((prev, prevSize) :: l).take (k - i + 1)) := by
+  induction l generalizing i prev prevSize with
+  | nil => simp [orderCheck.go] at h
+  | cons x rest ih =>
+    obtain ⟨cur, sz⟩ := x
+    simp only [orderCheck.go] at h
+    by_cases h1 : cur < prev
+    · simp only [h1, ↓reduceIte, Option.some.injEq, Prod.mk.injEq] at h
+      obtain ⟨rfl, rfl⟩ := h
+      refine ⟨Nat.le_refl _, by simp, prev, prevSize, cur, sz, by simp, by simp, by simpa using h1, by simp [Ordered]⟩
+    · simp only [h1, ↓reduceIte] at h
+      by_cases h2 : cur < prev + prevSize
+      · simp only [h2, ↓reduceIte, Option.some.injEq, Prod.mk.injEq] at h
+        obtain ⟨rfl, rfl⟩ := h
+        refine ⟨Nat.le_refl _, by simp, prev, prevSize, cur, sz, by simp, by simp, ?_, by simp [Ordered]⟩
+        simp only [↓reduceIte]; omega
+      · simp only [h2, ↓reduceIte] at h
+        obtain ⟨g1, g2, p, ps, c, cs, e1, e2, e3, e4⟩ := ih (i + 1) cur sz h
+        have hk : k - i = (k - (i + 1)) + 1 := by omega
+        refine ⟨by omega, by simp only [List.length_cons]; omega, p, ps, c, cs, ?_, ?_, e3, ?_⟩
+        · rw [hk, List.getElem?_cons_succ]; exact e1
+        · rw [hk, List.getElem?_cons_succ]; exact e2
+        · rw [hk, List.take_succ_cons]
+          cases hrest : ((cur, sz) :: rest).take (k - (i + 1) + 1) with
+          | nil => simp [Ordered]
+          | cons y ys =>
+            have hy : y = (cur, sz) := by
+              have := congrArg List.head? hrest
+              simpa using this.symm
+            subst hy
+            rw [hrest] at e4
+            exact ⟨by omega, e4⟩
+
+/-! ### a failed initialisation leaves the table unusable, a successful one usable -/
+
+private theorem load_inv (cb : Nat → Value → Bool) (fw : InitCode → Nat → Table → InitRes × Table)
+    (hfw : ∀ c p t, (fw c p t).1.code = c ∧ (fw c p t).2.initialised = false) :
+    ∀ (todo i : Nat) (t : Table), t.initialised = true →
+      ((register_init.load cb fw todo i t).1.code = .success ∧ (register_init.load cb fw todo i t).2.initialised = true) ∨
+      ((register_init.load cb fw todo i t).1.code ≠ .success ∧ (register_init.load cb fw todo i t).2.initialised = false) := by
+  intro todo
+  induction todo with
+  | zero => intro i t h; left; simp [register_init.load, h]
+  | succ n ih =>
+    intro i t h
+    simp only [register_init.load]
+    cases he : t.entries[i]? with
+    | none => left; simp [h]
+    | some e =>
+      simp only
+      cases hm : reg_entry_is_in_memory t e with
+      | none => right; simp [(hfw _ _ _).1, (hfw _ _ _).2]
+      | some v =>
+        obtain ⟨ai, off⟩ := v
+        simp only
+        cases ha : t.areas[ai]? with
+        | none => right; simp [(hfw _ _ _).1, (hfw _ _ _).2]
+        | some a =>
+          simp only
+          by_cases hn : need_to_load_default a = true
+          · simp only [hn, ↓reduceIte]
+            rcases hset : register_set cb { t with entries := t.entries.set i { e with area := ai, offset := off } } i
+                ⟨e.type, e.default⟩ with ⟨⟨code, adr⟩, t'⟩
+            by_cases hc : code = .success
+            · subst hc
+              simp only
+              obtain ⟨_, _, _, _, _, _, _, _, _, _, _, ht'⟩ :=
+                Ufw.Props.C01.set_success_inv cb _ t' i _ true adr hset
+              exact ih (i + 1) t' (by rw [ht']; exact h)
+            · right
+              cases code <;> simp_all [(hfw _ _ _).1, (hfw _ _ _).2]
+          · simp only [hn, Bool.false_eq_true, ↓reduceIte]
+            exact ih (i + 1) _ h
+
+private theorem final_inv (g : Table → List Area) (r : InitRes × Table)
+    (h : (r.1.code = .success ∧ r.2.initialised = true) ∨ (r.1.code ≠ .success ∧ r.2.initialised = false)) :
+    ((match r with
+      | (⟨.success, _⟩, t) => ((⟨.success, 0⟩ : InitRes), { t with areas := g t, duringInit := false })
+      | r => r).1.code = .success ∧
+     (match r with
+      | (⟨.success, _⟩, t) => ((⟨.success, 0⟩ : InitRes), { t with areas := g t, duringInit := false })
+      | r => r).2.initialised = true) ∨
+    ((match r with
+      | (⟨.success, _⟩, t) => ((⟨.success, 0⟩ : InitRes), { t with areas := g t, duringInit := false })
+      | r => r).1.code ≠ .success ∧
+     (match r with
+      | (⟨.success, _⟩, t) => ((⟨.success, 0⟩ : InitRes), { t with areas := g t, duringInit := false })
+      | r => r).2.initialised = false) := by
+  obtain ⟨⟨code, p⟩, t⟩ := r
+  cases code <;> simp_all
+
+/-- initialisation either succeeds and leaves the table initialised, or fails and leaves it
+    uninitialised -/
+theorem init_outcome (cb : Nat → Value → Bool) (t0 : Table) :
+    ((register_init cb t0).1.code = .success ∧ (register_init cb t0).2.initialised = true) ∨
+    ((register_init cb t0).1.code ≠ .success ∧ (register_init cb t0).2.initialised = false) := by
+  simp only [register_init]
+  split
+  · right; simp
+  split
+  · right; simp
+  · right; simp
+  · split
+    · right; simp
+    · right; simp
+    · exact final_inv (fun t => linkAreas t.entries t.areas 0) _
+        (load_inv cb (fun c p t => (⟨c, p⟩, { t with initialised := false, duringInit := false }))
+          (fun c p t => ⟨rfl, rfl⟩) _ 0 _ rfl)
+
+/-- after a failed initialisation the typed, block, iteration and sanitise operations report the
+    table as uninitialised and do nothing -/
+theorem uninitialised_refuses (cb : Nat → Value → Bool) (t : Table) (h : t.initialised = false) :
+    (∀ idx v wv, register_setx cb t idx v wv = (⟨.uninitialised, idx⟩, t)) ∧
+    (∀ idx, register_get t idx = (⟨.uninitialised, idx⟩, none)) ∧
+    (∀ idx v s, register_bit_op cb t idx v s = (⟨.uninitialised, idx⟩, t)) ∧
+    (∀ addr n, register_block_read t addr n = (⟨.uninitialised, addr⟩, [])) ∧
+    (∀ addr buf, register_block_write cb t addr buf = (⟨.uninitialised, addr⟩, t)) ∧
+    (∀ addr off s, register_foreach_in t addr off s = (⟨.uninitialised, 0⟩, [])) ∧
+    register_sanitise cb t = (⟨.uninitialised, 0⟩, t) := by
+  refine ⟨?_, ?_, ?_, ?_, ?_, ?_, ?_⟩
+  · intro idx v wv; simp [register_setx, h]
+  · intro idx; simp [register_get, h]
+  · intro idx v s; simp [register_bit_op, register_get, h]
+  · intro addr n; simp [register_block_read, h]
+  · intro addr buf; simp [register_block_write, h]
+  · intro addr off s; simp [register_foreach_in, h]
+  · simp [register_sanitise, h]
+
+/-- a description without areas is refused as such, before anything else is looked at -/
+theorem init_no_areas (cb : Nat → Value → Bool) (t0 : Table) (h : t0.areas = []) :
+    (register_init cb t0).1 = ⟨.noAreas, 0⟩ := by
+  simp [register_init, h]
+
 end Ufw.Props.C04
